@@ -19,10 +19,10 @@ pub fn def() -> PropDef {
         quick_cases: 600_000,
         thorough_cases: 40_000_000,
         rule: "case = (field in {Fq,Fr}, a, b with a relation, exponent e); operands from canonical boundaries, stored-limb (Montgomery) boundary patterns, powers of two, small, uniform; non-trivial = some operand is from a boundary/limb class or the pair is related (not uniform x uniform x independent); distinct by (field,a,b,e)",
-        required: &[
+        required: crate::runner::req(&[
             "field:q", "field:r", "rel:equal", "rel:negation", "rel:stored-sum-2^256", "add:stored-carry", "add:stored-sum=p",
             "mul:final-sub", "a:limb-mont", "a:limb-canon", "a:canon-boundary", "inverse:zero",
-        ],
+        ]),
         enumerate: None,
         enumerate_note: "",
         also_dbg: false,
